@@ -17,6 +17,7 @@ import (
 
 	"github.com/coreruleset/crs-toolchain/v2/context"
 	"github.com/coreruleset/crs-toolchain/v2/regex"
+	"github.com/coreruleset/crs-toolchain/v2/utils"
 )
 
 var logger = log.With().Str("component", "renumber-tests").Logger()
@@ -35,7 +36,7 @@ func NewTestRenumberer() *TestRenumberer {
 
 func (t *TestRenumberer) RenumberTests(checkOnly bool, gitHubOutput bool, ctxt *context.Context) error {
 	failed := false
-	err := filepath.WalkDir(ctxt.RegressionTestsDir(), func(path string, d fs.DirEntry, err error) error {
+	err := filepath.WalkDir(utils.WalkRoot(ctxt.RegressionTestsDir()), func(path string, d fs.DirEntry, err error) error {
 		if err != nil {
 			// abort
 			return err
